@@ -592,6 +592,55 @@ func (e *OwnEngine) doCall(fn *ssa.Function, call *ssa.Call) {
 		if n, ok := cc.Value.Type().(*types.Named); ok && n.Obj().Pkg() != nil && n.Obj().Pkg().Path() == "reflect" && n.Obj().Name() == "Type" {
 			return // reflect.Type methods are read-only
 		}
+		// an interface of the library itself: every library type that implements it
+		// may be the receiver (class-hierarchy resolution)
+		if iface, ok := cc.Value.Type().Underlying().(*types.Interface); ok {
+			n := 0
+			for _, pk := range []*ssa.Package{c.SLib, c.SCLI} {
+				if pk == nil {
+					continue
+				}
+				for _, mem := range pk.Members {
+					tn, ok := mem.(*ssa.Type)
+					if !ok {
+						continue
+					}
+					for _, T := range []types.Type{tn.Type(), types.NewPointer(tn.Type())} {
+						if !types.Implements(T, iface) {
+							continue
+						}
+						m := c.Prog.LookupMethod(T, cc.Method.Pkg(), cc.Method.Name())
+						if m == nil || m.Blocks == nil {
+							continue
+						}
+						e.addCall(fn, m)
+						if len(m.Params) > 0 && pointerLike(m.Params[0].Type()) {
+							e.flow(e.P(m.Params[0]), e.valSet(cc.Value))
+							e.flow(e.P(m.Params[0]), e.readAll(e.valSet(cc.Value)))
+						}
+						for i, p := range m.Params[1:] {
+							if i < len(cc.Args) && pointerLike(p.Type()) {
+								e.flow(e.P(p), e.valSet(cc.Args[i]))
+							}
+						}
+						nres := m.Signature.Results().Len()
+						for ri := 0; ri < nres; ri++ {
+							if pointerLike(m.Signature.Results().At(ri).Type()) {
+								if nres == 1 {
+									e.flow(e.P(call), e.ret(m, ri))
+								} else {
+									e.flow(e.T(call, ri), e.ret(m, ri))
+								}
+							}
+						}
+						n++
+					}
+				}
+			}
+			if n > 0 {
+				return
+			}
+		}
 		e.unknown["interface call "+cc.Method.FullName()+" in "+fname(fn)] = call.Pos()
 		return
 	}
